@@ -71,7 +71,8 @@ def check_all(tr, jumps, states, labels_site, M, n_atoms, T, dt, temp, info, dim
     if dict(c_lab) != dict(wl):
         raise Violation('label-counter-aggregates-matrix', f'{dict(c_lab)} vs {dict(wl)}')
     # ---- jump diffusivity
-    D = oracle.min_image_dist(info['site_frac'], info['site_frac'], M)
+    sf_ = np.array(info['site_frac'], float)
+    D = {pr: float(oracle.min_image_dist(sf_[[pr[0]]], sf_[[pr[1]]], M)[0, 0]) for pr in {(s, d) for _, s, d in rows}}  # (only the pairs that occur: the site set may be large)
     total_time = T * dt
     for dims in dims_list:
         got = float(gcall(jumps.jump_diffusivity, dims))
@@ -345,6 +346,35 @@ def busy_case(tier, idx):
             'states': states.tolist(), 'inner': states.tolist(), 'coords': coords.tolist(), 'time_step': 1e-15, 'temperature': 500.0, 'n_parts': (2 if T < 10000 else 10**9), 'residence': 0, 'single_pass': True}
 
 
+# ----------------------------------------------------------------------------- many sites (site-count dependent code paths)
+MANY_SITES = {'quick': [257, 1001, 1100], 'thorough': [257, 1001, 1100, 2049, 4100]}
+
+
+def many_sites_size(tier):
+    return len(MANY_SITES[tier])
+
+
+def many_sites_case(tier, idx):
+    """S sites on a grid in a large cubic cell; two atoms hop between sites with the highest indices (and a few low ones), also through 'no site'"""
+    S = MANY_SITES[tier][idx]
+    g = int(np.ceil(S ** (1 / 3)))
+    frac = np.array([[(i + 0.25) / g, (j + 0.25) / g, (k + 0.25) / g] for i in range(g) for j in range(g) for k in range(g)])[:S]
+    L = 4.0 * g
+    lat = {'family': 'cubic', 'orient': 'lower', 'params': [L, L, L, 90, 90, 90], 'matrix': (np.eye(3) * L).tolist()}
+    seq0 = [S - 1, S - 2, S - 1, -1, S - 3, 1, S - 1, S - 2, 0, -1, S - 4, S - 1]
+    seq1 = [2, 3, -1, S // 2, S // 2 + 1, S // 2, 3, 2, -1, -1, 2, S // 2]
+    states = np.array([seq0, seq1]).T
+    coords = np.zeros((len(seq0), 2, 3)) + np.array([[0.2, 0.2, 0.2], [0.7, 0.7, 0.7]])[None]
+    return {'lattice': lat, 'sites': {'frac': frac.tolist(), 'labels': [['A', 'B', 'A', 'C'][i % 4] for i in range(S)]}, 'states': states.tolist(), 'inner': states.tolist(),
+            'coords': coords.tolist(), 'time_step': 1e-15, 'temperature': 500.0, 'n_parts': 10**9, 'residence': 0, 'single_pass': True}  # (no rates: the library loops over all S^2 label pairs)
+
+
+def run_many_sites(case):
+    info = run_history(case)
+    info['labels'] = [x for x in info['labels']] + [f'sites>{1000 * (len(case["sites"]["frac"]) // 1000)}']
+    return info
+
+
 SUBS = [
     Sub(name='pipeline', kind='hyp', run=run_pipeline, strategy=pipeline_cases,
         rule='hopping trajectories (1-3 diffusers, 2-6 sites, >=2 labels) in all cells through transitions_between_sites and Jumps; matrices, counters, diffusivity (1-3 dims), occupancy, graph (with/without energy bounds), rates',
@@ -355,6 +385,9 @@ SUBS = [
     Sub(name='enum-histories', kind='enum', run=run_history, size=enum_size, case_at=enum_case, exhaustive=True,
         rule='complete enumeration: every one-atom (outer, inner) history over 3 sites labelled A, B, A of length 2..4 (quick) / 2..6 (thorough) in a monoclinic cell; all bookkeeping clauses',
         shards={'quick': 16, 'thorough': 16}),
+    Sub(name='many-sites', kind='enum', run=run_many_sites, size=many_sites_size, case_at=many_sites_case, exhaustive=True,
+        rule='small family, complete: 257 / 1001 / 1100 (2049 / 4100) sites on a grid in a large cell, two atoms hopping between the sites with the highest indices, a few low ones and "no site"; all bookkeeping clauses (site-count dependent code paths, index packing)',
+        shards={'quick': 3, 'thorough': 5}),
     Sub(name='busy-histories', kind='enum', run=run_history, size=busy_size, case_at=busy_case, exhaustive=True,
         rule='small family, complete: histories of 520 / 1400 / 140 000 (300 000) frames in which one atom moves between the same two sites in every frame (count-matrix entries of 260 - 70 000 (150 000): beyond 8- and 16-bit counters) with / without a second atom hopping through "no site"; all bookkeeping clauses',
         shards={'quick': 6, 'thorough': 8}),
